@@ -511,12 +511,12 @@ func init() {
 		genFinding{sig: "addprops-true-missing-imports",
 			trigger: func(root *sg.Schema, _ []string) bool {
 				return anyNode(root, func(x *sg.Schema) bool {
-					return len(x.Props) > 0 && ((x.AddPropsBool != nil && *x.AddPropsBool) || (x.AddProps != nil && len(x.AddProps.Types) == 0 && x.AddProps.Ref == "" && !x.AddProps.HasEnum))
+					return len(x.Props) > 0 && addPropsAnything(x)
 				})
 			},
 			neutralise: func(root *sg.Schema) {
 				root.Walk(func(x *sg.Schema) {
-					if len(x.Props) > 0 && ((x.AddPropsBool != nil && *x.AddPropsBool) || (x.AddProps != nil && len(x.AddProps.Types) == 0 && x.AddProps.Ref == "" && !x.AddProps.HasEnum)) {
+					if len(x.Props) > 0 && addPropsAnything(x) {
 						x.AddPropsBool, x.AddProps = nil, nil
 					}
 				})
@@ -667,6 +667,20 @@ func genFindingFor(ctx *Ctx, root *sg.Schema, args []string, diag string) string
 	return ""
 }
 
+// addPropsAnything: additionalProperties whose values are interface{} - true, an untyped inline schema, or a
+// reference to a definition without type and enum (the collect-the-rest block of recorded finding
+// addprops-true-missing-imports).
+func addPropsAnything(x *sg.Schema) bool {
+	if x.AddPropsBool != nil && *x.AddPropsBool {
+		return true
+	}
+	a := x.AddProps
+	if a != nil && a.Ref != "" {
+		a = a.Resolve()
+	}
+	return a != nil && a.Ref == "" && len(a.Types) == 0 && !a.HasEnum && len(a.AllOf) == 0 && len(a.AnyOf) == 0
+}
+
 func firstFailed(p *batch.Program) string {
 	for _, l := range strings.Split(string(p.Proc.Stderr), "\n") {
 		if strings.Contains(l, "Failed:") {
@@ -748,6 +762,10 @@ func c01(ctx *Ctx) (*Outcome, error) {
 	for i := 0; i < 40; i++ {
 		xc := crossPackageCase(i)
 		cases = append(cases, &c01Case{root: xc.Root, args: xc.Args, tag: "clean", sc: xc})
+	}
+	// the semantic checks' strata (single- and multi-file invocations with the options they come with)
+	for _, sc := range strataForC01(ctx) {
+		cases = append(cases, &c01Case{root: sc.Root, args: sc.Args, tag: "clean", sc: sc})
 	}
 	// enumerated: three contenders of every combination of kinds for one Go type name
 	for i := 0; i < 128; i++ {
@@ -874,7 +892,11 @@ func c01(ctx *Ctx) (*Outcome, error) {
 			continue
 		}
 		checked++
-		sigs[c.root.Sig()+"|"+strings.Join(c.args, " ")] = true
+		if c.sc != nil {
+			sigs[c.sc.Sig+"|"+strings.Join(c.args, " ")] = true // (reference cycles through files: no structural signature)
+		} else {
+			sigs[c.root.Sig()+"|"+strings.Join(c.args, " ")] = true
+		}
 		d := c01Diag(p)
 		if d == "" {
 			okCount++
